@@ -203,3 +203,97 @@ h!(c07_request_after_block, third_party_request(1));
 
 h!(c02_append_p256_next_after_block, append(1, 0, 0, false, true, false));
 h!(c02_append_after_two_blocks_v1, append(2, 0, 1, false, false, false));
+
+/// C02-K2 for the first block: `SerializedBiscuit::new_inner` on an empty Datalog block signs
+/// the specified authority payload (v0 or v1) over the block's protobuf bytes with the root key
+/// pair, stores that signature and version, and keeps the next key pair's secret as proof.
+fn new_token(version: u32, p256_root: bool, p256_next: bool) {
+    let root = any_keypair(p256_root);
+    let next = any_keypair(p256_next);
+    let block = crate::token::Block {
+        symbols: crate::datalog::SymbolTable::new(),
+        facts: Vec::new(),
+        rules: Vec::new(),
+        checks: Vec::new(),
+        context: None,
+        version: 3,
+        external_key: None,
+        public_keys: crate::token::public_keys::PublicKeys::new(),
+        scopes: Vec::new(),
+    };
+    oracle::switch_on();
+    let r = SerializedBiscuit::new_inner(kani::any(), &root, &next, &block, version);
+    let ok = r.is_ok();
+    kani::cover!(ok, "witness-any: token created");
+    kani::cover!(!ok, "witness-any: unknown signature version refused");
+    assert!(ok == (version <= 1), "token creation accepts an unknown signature version or refuses a known one");
+    if let Ok(t) = &r {
+        assert!(oracle::n_sign() == 1, "creation signs more or less than one message");
+        let q = oracle::sign_query(0);
+        assert!(q.key == root.public(), "the authority block is not signed by the root key pair");
+        let expect = SBlock { data: t.authority.data.clone(), next_key: next.public(), signature: crypto::Signature::from_vec(Vec::new()), external_signature: None, version };
+        let expected = spec_block_payload(&expect, None);
+        std::mem::forget(expect);
+        assert!(q.msg == expected, "the signed message is not the specified authority payload");
+        assert!(t.authority.signature.to_bytes() == &q.sig[..] && t.authority.version == version && t.authority.next_key == next.public(), "stored signature / version / next key differ from what was signed");
+        assert!(t.blocks.is_empty() && t.authority.external_signature.is_none());
+        assert!(matches!(&t.proof, TokenNext::Secret(_)), "a fresh token is not extensible");
+    }
+    std::mem::forget(r);
+    std::mem::forget(root);
+    std::mem::forget(next);
+    std::mem::forget(block);
+}
+h!(c02_new_token_v0, new_token(0, false, false));
+h!(c02_new_token_v1, new_token(1, false, false));
+h!(c02_new_token_v1_p256_next, new_token(1, false, true));
+h!(c02_new_token_v2_refused, new_token(2, false, false));
+
+/// `append` (Datalog block -> protobuf -> signature): the declared Datalog version of the new
+/// block takes part in the choice of the signature scheme (3.3 content forces version 1).
+/// The block is empty, so its protobuf encoding is the two bytes [0x18, version] (field 3, varint).
+fn append_datalog_block_at(v_auth: u32, v_b1: u32, dl_version: u32) {
+    let t = base(1, v_auth, v_b1, false, false);
+    let next = any_keypair(false);
+    let block = crate::token::Block {
+        symbols: crate::datalog::SymbolTable::new(),
+        facts: Vec::new(),
+        rules: Vec::new(),
+        checks: Vec::new(),
+        context: None,
+        version: dl_version,
+        external_key: None,
+        public_keys: crate::token::public_keys::PublicKeys::new(),
+        scopes: Vec::new(),
+    };
+    oracle::switch_on();
+    let r = t.append(&next, &block, None);
+    let ok = r.is_ok();
+    kani::cover!(ok, "witness: the block was appended");
+    assert!(ok, "appending a Datalog block to an unsealed container fails");
+    if let Ok(r) = &r {
+        let v = if dl_version >= 6 || v_auth == 1 || v_b1 == 1 { 1 } else { 0 };
+        assert!(r.blocks.len() == 2 && r.blocks[1].version == v, "signature version ignores the block's Datalog version or the history");
+        assert!(oracle::n_sign() == 1, "append signs more or less than one message");
+        let q = oracle::sign_query(0);
+        let expect_new = SBlock { data: vec![0x18, dl_version as u8], next_key: next.public(), signature: crypto::Signature::from_vec(Vec::new()), external_signature: None, version: v };
+        let expected = spec_block_payload(&expect_new, Some(t.blocks[0].signature.to_bytes()));
+        std::mem::forget(expect_new);
+        assert!(q.msg == expected, "the signed message is not the specified payload over the block's protobuf bytes");
+    }
+    std::mem::forget(r);
+    std::mem::forget(t);
+    std::mem::forget(next);
+    std::mem::forget(block);
+}
+fn append_datalog_block(v_auth: u32, v_b1: u32) {
+    let sel: u8 = kani::any();
+    match sel {
+        0 => append_datalog_block_at(v_auth, v_b1, 3),
+        1 => append_datalog_block_at(v_auth, v_b1, 5),
+        2 => append_datalog_block_at(v_auth, v_b1, 6),
+        _ => {}
+    }
+}
+h!(c02_append_datalog_block_v0_v0, append_datalog_block(0, 0));
+h!(c02_append_datalog_block_v0_v1, append_datalog_block(0, 1));
